@@ -14,11 +14,14 @@ MANIFEST = dict(
          "sessions, transporter registry, groups, ports, OIDC subject list, client managers) holds the owner's mutex - reflective "
          "theorem over the lock table that translator unit T4 regenerates from the Go sources on every run. The search for a concrete "
          "crashing input is a barrage against a real frps running in a child process (field-level mutation of all 18 message types, "
-         "authenticated and unauthenticated, with concurrent registration/closure/group/visitor/NAT-hole traffic and a tunnel watchdog).",
+         "authenticated and unauthenticated, with concurrent registration/closure/group/visitor/NAT-hole traffic and a tunnel watchdog), a "
+         "second barrage against a real frpc running in a child process (a scripted fake frps and fake STUN server send mutated answers on the "
+         "control channel and on every work and visitor connection; watchdog: re-login, registration, bytes through the plain tcp proxy), and "
+         "a race-detector pass over same-run-id re-login / registration overlaps in both tiers.",
     note="Trusted: Coq kernel+VM; translator units T4 (syntactic, intra-procedural lock-state walk over go/ast with one level of "
          "callee-requires-lock) and T8a (straight-line integer code of NewControl); harness transcription. Not modelled: goroutine "
-         "scheduling of the whole process, third-party libraries (yamux, quic, kcp, net/http), memory exhaustion, the client process "
-         "(frpc) beyond its two manager tables. A data race outside the listed tables, or a panic in code outside the four mechanisms, "
+         "scheduling of the whole process, third-party libraries (yamux, quic, kcp, net/http), memory exhaustion; of the client process "
+         "(frpc) only its two manager tables are in the lock theorem, the rest of it is covered by the client barrage (search). A data race outside the listed tables, or a panic in code outside the four mechanisms, "
          "can only be found by the barrage (a search, not a proof).",
     technique="Coq proof over translator-regenerated code and lock table (reflection) + child-process barrage search",
     design="4/C16")
@@ -28,23 +31,66 @@ def q(tier, quick, thorough):
     return quick if tier == "quick" else thorough
 
 
+DIRECTED = "stun-flood,listen-random-ports,sudp-close-under-traffic,sudp-close-under-traffic"
+
+
+def race_build(wait=True, proc=None):
+    """go build -race of the C16 harness binary -> work/h_c16_race (child processes of the race passes).
+    Started in the background at the beginning of the recipe (the build cache makes it cheap after the first time)."""
+    import subprocess
+    from vlib import WORK, GOENV
+    if proc is None:
+        cmd = "cd %s/harness && go build -race -modfile=%s/harness.mod -tags verif -o %s/h_c16_race ./cmd/c16" % (V, WORK, WORK)
+        return subprocess.Popen(cmd, shell=True, stdout=subprocess.PIPE, stderr=subprocess.STDOUT, env=dict(os.environ, **GOENV))
+    out = proc.communicate(timeout=900)[0].decode("utf-8", "replace")
+    return proc.returncode, out
+
+
 def recipe(c: Check):
+    from vlib import WORK
     c.build(["Properties/C16.vo", "Corr/C16.vo"], harness=["c16"], units=["t1", "t4", "t8a"])
     c.obligations("C16")
+    rb = race_build() if c.harness_ok else None
+    locks = os.path.join(V, "coq/gen/GenLocks.v")
+    race_child = os.path.join(WORK, "h_c16_race")
     c.run_driver("alloc", 0, shards=1, timeout=300)
     c.run_driver("barrage", q(c.tier, 350, 6000), shards=q(c.tier, 2, 8), timeout=q(c.tier, 300, 3000))
-    if c.tier == "thorough" and c.harness_ok:
-        # the same barrage against a child built with the race detector; races on listed shared tables are violations
-        from vlib import sh, WORK, GOENV
-        rc, out, _ = sh("cd %s/harness && go build -race -modfile=%s/harness.mod -tags verif -o %s/h_c16_race ./cmd/c16" % (V, WORK, WORK), timeout=900)
+    # the client process: a real frpc in a child against a scripted fake frps (+ fake STUN server); two directed scenarios
+    st = c.run_driver("clientbarrage", q(c.tier, 500, 6000), shards=q(c.tier, 2, 8), timeout=q(c.tier, 300, 3000),
+                      extra="directed=%s;locks=%s" % (DIRECTED, locks))
+    if st:
+        c.cov["client_counts"] = st.get("counts")
+        k = st.get("counts") or {}
+        if k.get("watchdog_tunnels", 0) == 0 or k.get("work_conns", 0) == 0 or k.get("sessions", 0) < 2:
+            c.broken.append(dict(kind="sanity", name="clientbarrage reached no watchdog tunnel / work connection / second session", detail=str(k)))
+    if rb is not None:
+        rc, out = race_build(proc=rb)
         if rc == 0:
-            st = c.run_driver("barrage", 1500, shards=4, timeout=3000, env=dict(VERIF_C16_CHILD=os.path.join(WORK, "h_c16_race")),
-                              extra=os.path.join(V, "coq/gen/GenLocks.v"))
+            # race-detector pass (quick and thorough): the barrage weighted towards same-run-id re-logins overlapping registrations,
+            # concurrent NewProxy/CloseProxy, groups, visitors and NAT-hole traffic, against a child built with -race
+            st = c.run_driver("racebarrage", q(c.tier, 120, 1500), shards=q(c.tier, 1, 4), timeout=q(c.tier, 300, 3000),
+                              env=dict(VERIF_C16_CHILD=race_child), extra=locks)
             if st:
                 c.cov["race_reports"] = st.get("race_reports")
+                c.cov["race_reports_frp_owned"] = st.get("race_reports_frp_owned")
+                c.cov["race_reports_chan_close_vs_send"] = st.get("race_reports_chan_close_vs_send")
                 c.cov["race_reports_outside_listed_tables"] = st.get("race_reports_outside_listed_tables")
+            if c.tier == "thorough":
+                # the frpc child under the race detector: listed tables are violations, other reports are recorded (see design/C16.md)
+                st = c.run_driver("clientbarrage", 1500, shards=4, timeout=3000, env=dict(VERIF_C16_CHILD=race_child), extra="locks=%s" % locks)
+                if st:
+                    c.cov["client_race_reports"] = st.get("race_reports")
+                    c.cov["client_race_reports_frp_owned"] = st.get("race_reports_frp_owned")
+                    c.cov["client_race_reports_chan_close_vs_send"] = st.get("race_reports_chan_close_vs_send")
+                # the unweighted barrage against the race child (as before); runs last: it re-uses the case file names of the first barrage
+                st = c.run_driver("barrage", 1500, shards=4, timeout=3000, env=dict(VERIF_C16_CHILD=race_child), extra=locks)
+                if st:
+                    c.cov["race_reports_plain_barrage"] = st.get("race_reports")
         else:
-            c.notes.append("race-detector build of the child failed: " + out[-300:])
+            c.broken.append(dict(kind="harness-build", name="race-detector build of the C16 harness (go build -race)", detail=out[-1200:]))
+    k = c.cov.get("coq_counters", {}).get("clientbarrage", {})
+    if c.harness_ok and (k.get("NCLIENT", 0) == 0 or k.get("NCLIENTLOGIN", 0) < 2):
+        c.broken.append(dict(kind="sanity", name="clientbarrage produced no client observations / fewer than two answered logins", detail=str(k)))
     k = c.cov.get("coq_counters", {}).get("alloc", {})
     if c.harness_ok and (k.get("NCLAMPLOW", 0) == 0 or k.get("NCLAMPHIGH", 0) == 0):
         c.broken.append(dict(kind="sanity", name="alloc driver reached no negative / no above-maximum PoolCount case", detail=str(k)))
@@ -54,6 +100,16 @@ def recipe(c: Check):
              "empty/9000-byte/non-UTF-8 strings, maps, slices) of all 18 message types sent as first message, as Login with a valid key, and "
              "on authenticated sessions, interleaved with 4 background goroutines doing concurrent xtcp/stcp/grouped tcp/grouped http "
              "registration+closure and NAT-hole pre-checks; every 25 messages a watchdog (fresh login, tcp proxy, user connection bridged to a "
-             "work connection, bytes pass). distinct = distinct (kind, type, field values); non-trivial = every case (each carries mutated fields)",
+             "work connection, bytes pass). clientbarrage: a real frpc (16 proxies: proxy protocol v1/v2, encryption+compression, bandwidth "
+             "limit, udp, 5 plugins, stcp/sudp/xtcp, 4 visitors) in a child process against a scripted fake frps and fake STUN server: mutated "
+             "LoginResp, all 18 message types field-mutated on the control channel, ReqWorkConn bursts, unsolicited NewProxyResp/NatHoleResp, odd "
+             "JSON frames, garbage, dropped control connections; every work / visitor connection the child opens gets a mutated StartWorkConn / "
+             "NewVisitorConnResp and payload for its handler; every 12 messages a watchdog (child alive; the standing session, else a re-login "
+             "within 12 s, bridges bytes through the plain tcp proxy to the local echo and back); directed scenarios (STUN answers x120, "
+             "ListenRandomPorts = MaxInt32, session end while datagrams pour into the sudp visitor); the frps barrage ends with 40 rounds of "
+             "udp proxies closed under datagram traffic. racebarrage: 120 barrage cases weighted towards same-run-id re-logins overlapping registrations "
+             "against a frps child built with -race; a report on a listed shared table, or any report with an access made by frp code other than "
+             "close-of-channel against send-on-channel, is a violation. distinct = distinct (kind, type, field values); non-trivial = every case",
         assumptions=["goroutine interleavings of the real process are sampled by the barrage, not enumerated",
-                     "translator T4's lock-state analysis is syntactic; cross-checked in the thorough tier by the race detector where available"])
+                     "translator T4's lock-state analysis is syntactic; cross-checked in both tiers by the race detector where available",
+                     "frpc's reconnect back-off (client/service.go) bounds the number of lost sessions per child to 8; every epoch uses a fresh child"])
